@@ -976,6 +976,11 @@ func observe(e *asm.Emitter, names []string) emObs {
 		v, ok := e.GetLabel(n)
 		o.Labels[n] = fmt.Sprintf("%06x/%v", v, ok)
 	}
+	// a caller may ask about names the program never mentions ("is the shared epilogue emitted yet?")
+	for _, n := range []string{"never_mentioned", "", "epilogue"} {
+		v, ok := e.GetLabel(n)
+		o.Labels["?"+n] = fmt.Sprintf("%06x/%v", v, ok)
+	}
 	return o
 }
 
